@@ -25,9 +25,9 @@ CHECKS = [
 GENERIC = (" Sonic's single-point flow (keys, commitments, proofs, decisions and mutated verifier runs) is compared with its extracted model as Marlin's is; "
            "so are Hyrax's and IPA's single-point flows (free-module view over the published key; sponge and hash challenges from recorded tapes). "
            "PST13's trait-level single-point flows (hiding, several polynomials) are compared with their model (free module over g, gamma_g and the standard generator; trapdoors replayed from the setup RNG). "
-           "Univariate and multilinear Ligero's single-polynomial flow (opened vectors, queried columns, indices, value, decisions on the honest proof, a false value and "
-           "mutated proofs) is compared with its model, in which column hash and Merkle tree are an ideal vector commitment. "
-           "The other schemes and paths behind the PolynomialCommitment trait (Brakedown, IPA/Hyrax/PST13 batches and combinations) are "
+           "Univariate and multilinear Ligero's and Brakedown's single-polynomial flow (opened vectors, queried columns, indices, value, decisions on the honest proof, a false value and "
+           "mutated proofs) is compared with its model, in which column hash and Merkle tree are an ideal vector commitment and Brakedown's encoder is its generator matrix as observed from the library. "
+           "The other paths behind the PolynomialCommitment trait (multi-polynomial linear-code openings, IPA/Hyrax/PST13 batches and combinations) are "
            "exercised by the same generated histories and judged by implementation-level oracles (supporting search, not proof).")
 CHECKS += [
     {"property_id": "C02",
